@@ -195,9 +195,13 @@ def observe(ldr, via: str):
     elif via == "landscape":
         arr = ldr.construct_landscape(templ, max_shifts=0.0, alignment_model=Probe).compute()
         vals = [float(a.ravel()[0]) for a in arr]
+    elif via == "average":
+        vals = [_centre_of(a) for a in ldr.asnumpy()]
+        avg = _centre_of(ldr.average())
+        return [decode(v) for v in vals], res, dict(codes=[int(round(v)) for v in vals], avg_n=int(round(avg * len(vals))) if abs(avg * len(vals) - round(avg * len(vals))) < 0.05 else -1)
     else:
         raise ValueError(via)
-    return [decode(v) for v in vals], res
+    return [decode(v) for v in vals], res, dict(codes=[], avg_n=0)
 
 
 def _how_call(ldr, how: dict, seed: int):
@@ -219,6 +223,20 @@ def _how_call(ldr, how: dict, seed: int):
         return ldr.replace(molecules=ldr.molecules.sort(how["col"], descending=bool(how["desc"])))
     if name == "subset_list":
         return ldr.replace(molecules=ldr.molecules.subset(list(how["idx"])))
+    if name == "roundtrip":
+        import os, tempfile
+        from acryo import Molecules
+
+        d = tempfile.mkdtemp(prefix="ldr-")
+        path = os.path.join(d, "m.csv" if how["fmt"] == "csv" else "m.parquet")
+        try:
+            ldr.molecules.to_file(path)
+            back = Molecules.from_file(path)
+        finally:
+            import shutil
+
+            shutil.rmtree(d, ignore_errors=True)
+        return ldr.replace(molecules=back)
     if name == "copy":
         return ldr.copy()
     if name == "binning":
@@ -233,6 +251,7 @@ def execute(op: dict, ldr, T, seed: int = 0):
     obs, groups, groups2 = [], [], []
     err = ""
     res_bin = 1
+    extra = dict(codes=[], avg_n=0)
     try:
         if name == "add_tomogram":
             ids_before = set(ldr.images.keys())
@@ -244,7 +263,7 @@ def execute(op: dict, ldr, T, seed: int = 0):
             res = _how_call(ldr, op["how"], seed)
             res_bin = op["how"].get("b", 1) if op["how"]["name"] == "binning" else 1
         elif name == "observe":
-            obs, res = observe(ldr, op["via"])
+            obs, res, extra = observe(ldr, op["via"])
         elif name == "groupby":
             col = "image-id" if op["col"] == "img" else op["col"]
             grp = ldr.groupby(col)
@@ -272,4 +291,4 @@ def execute(op: dict, ldr, T, seed: int = 0):
     except Exception as e:  # observation
         err = type(e).__name__ + ": " + str(e)[:120]
         res, obs, groups, groups2 = None, [], [], []
-    return res, obs, groups, groups2, err, res_bin
+    return res, obs, groups, groups2, err, extra
